@@ -241,6 +241,13 @@ func (s *StatsCtx) Start() {
 
 // Close implements the [io.Closer] interface for *StatsCtx.
 func (s *StatsCtx) Close() (err error) {
+	// Take the same lock as the periodic flush takes first, since it locks the
+	// current unit and then opens a transaction, while the transaction here is
+	// opened before the current unit is locked, and so both could block forever
+	// when running at the same time.
+	s.confMu.Lock()
+	defer s.confMu.Unlock()
+
 	db := s.db.Swap(nil)
 	if db == nil {
 		return nil
